@@ -26,6 +26,10 @@ class InjectedKeyError(KeyError):
     """another unrelated Exception type"""
 
 
+class InjectedIndexError(IndexError):
+    """an IndexError raised by user code (LookupError family, often special-cased)"""
+
+
 class InjectedBase(BaseException):
     """not an Exception subclass"""
 
@@ -39,6 +43,7 @@ EXC_KINDS = {
     'filter_sub': InjectedFilterSub,
     'value': InjectedError,
     'key': InjectedKeyError,
+    'index': InjectedIndexError,
     'base': InjectedBase,
 }
 EXC_NAME = {v: k for k, v in EXC_KINDS.items()}
